@@ -308,6 +308,49 @@ def run(ctx):
                 else:
                     kinds.append("?" + M.term_str(v)[:60])
             ok = sorted(kinds) in (["sat"], ["sub", "zero"])
+    if not ok and len(pc) == 1:
+        # the same decided by evaluating maybe_poll per case, however the Option is put together (map, match, is_some().then(..), ...)
+        dlp = ("param", 4, mp.local_name(4))
+        NONE_ = ("agg", ("adt", "std::option::Option", "None"), ())
+        now_ = lambda x: M.noref(M.strip(x))[0] == "call" and M.noref(M.strip(x))[1] == "std::time::Instant::now"
+        isd_ = lambda x: M.noref(M.strip(x)) == dlp or (M.noref(x)[0] == "field" and M.noref(x)[1][0] == "downcast" and M.noref(M.noref(x)[1][1]) == dlp)
+        def clock(t_):
+            t_ = M.noref(t_)
+            if t_[0] == "call" and "PartialOrd" in t_[1] and len(t_[2]) == 2:
+                op = t_[1].split("::")[-1]
+                if now_(t_[2][0]) and isd_(t_[2][1]):
+                    return {"ge": 1, "gt": 1, "le": 0, "lt": 0}.get(op)
+                if now_(t_[2][1]) and isd_(t_[2][0]):
+                    return {"le": 1, "lt": 1, "ge": 0, "gt": 0}.get(op)
+            return None
+        def case(dl, past=None):
+            def af(t_):
+                if not t_:
+                    return None
+                if M.noref(t_) == dlp:
+                    return dl
+                if past is not None:
+                    v_ = clock(t_)
+                    if v_ is not None:
+                        return v_ if past else 1 - v_
+                return None
+            E_ = M.Explore(mp, assume_fn=af)
+            if pc[0][0] not in E_.blocks:
+                return None
+            return [M.noref(a_) for a_ in M.alts(M.Terms(mp, blocks=E_.blocks).operand(pc[0][1]["args"][1]))]
+        def some_of(a_):
+            return a_[2][0] if a_[0] == "agg" and a_[1][:3] == ("adt", "std::option::Option", "Some") else None
+        is_sat = lambda v: v is not None and v[0] == "call" and v[1] == "std::time::Instant::saturating_duration_since" and isd_(v[2][0]) and now_(v[2][1])
+        is_zero = lambda v: v is not None and ((v[0] == "call" and v[1] in ("std::time::Duration::from_secs", "std::time::Duration::from_millis", "std::time::Duration::from_nanos") and const_of(v[2][0]) == 0)
+                                               or (v[0] == "const" and v[2] == "std::time::Duration::ZERO"))
+        is_sub = lambda v: v is not None and v[0] == "call" and "Sub" in v[1] and isd_(v[2][0]) and now_(v[2][1])
+        none_c, some_c = case(0), case(1)
+        ok = none_c == [M.noref(NONE_)] and bool(some_c)
+        if ok and all(is_sat(some_of(a_)) for a_ in some_c):
+            pass
+        elif ok:
+            past_c, fut_c = case(1, True), case(1, False)
+            ok = bool(past_c) and bool(fut_c) and all(is_zero(some_of(a_)) or is_sat(some_of(a_)) for a_ in past_c) and all(is_sub(some_of(a_)) or is_sat(some_of(a_)) for a_ in fut_c)
     ctx.ob("R04.3", "poll-timeout=deadline-now|0", ok, mp.loc(pc[0][0] if pc else 0), "the timeout of each poll is recomputed as deadline - Instant::now() (zero when already past)")
 
     # ---- R04.4 posix::poll: infinite without limit, guarded cast, re-arm --------------------------------------------
